@@ -147,6 +147,25 @@ type c07Sched struct {
 	broken   bool
 }
 
+// c07Lost counts "the loader never arrived" / "stranded" events in this process.  The first ones are awaited
+// generously (a loaded machine must not cause a false alarm); once the code under test has shown itself broken
+// three times the remaining cases of the run use short waits so that a failing run still ends in reasonable time.
+var c07Lost int32
+
+func c07WaitDur() time.Duration {
+	if atomic.LoadInt32(&c07Lost) >= 3 {
+		return 400 * time.Millisecond
+	}
+	return 3 * time.Second
+}
+
+func c07IdleDur() time.Duration {
+	if atomic.LoadInt32(&c07Lost) >= 3 {
+		return 1500 * time.Millisecond
+	}
+	return 6 * time.Second
+}
+
 const c07Wait = 5 * time.Second
 
 func (m *c07Sched) sync() {
@@ -154,8 +173,9 @@ func (m *c07Sched) sync() {
 		return
 	}
 	m.q.GetChannel() // posts a token
-	if !m.ctl.WaitAt("*", c07PtWoke, c07Wait) {
+	if !m.ctl.WaitAt("*", c07PtWoke, c07WaitDur()) {
 		m.broken = true
+		atomic.AddInt32(&c07Lost, 1)
 		return
 	}
 	m.lstate = 1
@@ -248,8 +268,9 @@ func (m *c07Sched) step(tok string) (out string) {
 		_, poolCount := m.q.VerifState()
 		c07ReleaseKeep(m.ctl, "*", c07PtWoke)
 		if poolCount > 0 {
-			if !m.ctl.WaitAt("*", c07PtPolled, c07Wait) {
+			if !m.ctl.WaitAt("*", c07PtPolled, c07WaitDur()) {
 				m.broken = true
+				atomic.AddInt32(&c07Lost, 1)
 				return "lost-loader"
 			}
 			m.lstate = 2
@@ -267,8 +288,9 @@ func (m *c07Sched) step(tok string) (out string) {
 			return m.afterPass("unshift pass-done")
 		}
 		if m.passLeft > 0 {
-			if !m.ctl.WaitAt("*", c07PtPolled, c07Wait) {
+			if !m.ctl.WaitAt("*", c07PtPolled, c07WaitDur()) {
 				m.broken = true
+				atomic.AddInt32(&c07Lost, 1)
 				return "moved lost-loader"
 			}
 			m.passLeft--
@@ -286,8 +308,9 @@ func c07SchedRun(c, b int, steps []string) string {
 	q := fpgo.NewBufferedChannelQueue[int](c, b, 10000).SetLoadFromPoolDuration(20 * time.Microsecond)
 	m := &c07Sched{ctl: ctl, q: q}
 	m.handle = q.GetChannel() // also posts the first token
-	if !ctl.WaitAt("*", c07PtWoke, c07Wait) {
+	if !ctl.WaitAt("*", c07PtWoke, c07WaitDur()) {
 		m.broken = true
+		atomic.AddInt32(&c07Lost, 1)
 	}
 	m.lstate = 1
 	outs := make([]string, 0, len(steps))
@@ -479,14 +502,15 @@ func c07Stress(c, b, p, k, n int, mode string, seed int64) string {
 	pdone := make(chan struct{})
 	go func() { wg.Wait(); close(pdone) }()
 	stranded := false
-	idle := func() bool { return time.Since(time.Unix(0, atomic.LoadInt64(&lastProgress))) > 8*time.Second }
+	idleDur := c07IdleDur()
+	idle := func() bool { return time.Since(time.Unix(0, atomic.LoadInt64(&lastProgress))) > idleDur }
 waitProducers:
 	for {
 		select {
 		case <-pdone:
 			break waitProducers
 		case <-time.After(2 * time.Millisecond):
-			if idle() { // nothing accepted and nothing delivered for 8 s although producers keep offering
+			if idle() { // nothing accepted and nothing delivered for idleDur although producers keep offering
 				stranded = true
 				break waitProducers
 			}
@@ -593,8 +617,11 @@ waitProducers:
 			}
 		}
 	}
+	if stranded {
+		atomic.AddInt32(&c07Lost, 1)
+	}
 	if res == "" && stranded {
-		res = fmt.Sprintf("viol stranded delivered=%d of %d accepted, no progress for 8s with consumers calling %s", del, acc, mode)
+		res = fmt.Sprintf("viol stranded delivered=%d of %d accepted, no progress for %v with consumers calling %s", del, acc, idleDur, mode)
 	}
 	if res == "" && !countOK {
 		res = fmt.Sprintf("viol count-at-quiescence Count=%d accepted-delivered=%d", lastCnt, lastHeld)
